@@ -101,15 +101,7 @@ def run(args):
         if b == "vm" and rr.get("trace") and (k % 5 == 0 or "spawn" in name):
             traces.append(rr["trace"])
             owners.append((name, k))
-    todo = list(range(len(traces)))
-    while todo:
-        ok, idx, detail = K.validate([traces[i] for i in todo], rep)
-        if ok:
-            break
-        bad = todo[idx]
-        rep.fail({"family": "cancel", "kind": "trace-rejected", "program": owners[bad][0], "invariant": detail["invariant"],
-                  "next_event": (detail["next_line"] or {}).get("e")}, {"program": owners[bad], "detail": detail})
-        todo = todo[idx + 1:]
+    K.validate_all(traces, owners, rep, {"family": "cancel"})
     rep.sample({"program": "spawn_loops", "source": PROGRAMS["spawn_loops"][0], "cancel_points": "k = 1..%d" % kmax})
     rep.sample({"program": "try_in_loop", "source": PROGRAMS["try_in_loop"][0]})
     return rep.finish()
